@@ -9,6 +9,7 @@ import (
 	"fmt"
 	"os"
 	"path/filepath"
+	"regexp"
 	"sort"
 	"strings"
 
@@ -25,6 +26,12 @@ type Cfg struct {
 	MaxSize  uint64 `json:"max_file_size"`
 	MaxFiles uint32 `json:"max_files"`
 	Crash    bool   `json:"enumerate_truncations"`
+	// Neighbours (bit mask, environment fault): other logs appear in the directory (at the "nb" op) - the log
+	// directory is shared by the applications of a user and, with pid file names, by the processes of one
+	// application. bit 0: a log whose base name is ours + ".pid12"; bit 1: the log of an application whose
+	// name ends in ours ("eapp"); bit 2: a log whose base name continues ours ("app-metrics.logx"). Their items
+	// never show up in our searches, their files are never touched, and ours stay what they are.
+	Neighbours int `json:"neighbours,omitempty"`
 }
 
 type P struct{}
@@ -36,12 +43,13 @@ func (P) Engine() string { return "E4" }
 
 func (P) Describe() harness.Description {
 	return harness.Description{
-		MustHit:    []string{"file_rolled", "old_file_removed", "repeated_query_on_one_searcher", "write_in_creation_second", "write_before_creation_ignored", "data_truncations", "index_truncations", "day_change"},
+		MustHit:    []string{"other_logs_in_the_directory", "file_rolled", "old_file_removed", "repeated_query_on_one_searcher", "write_in_creation_second", "write_before_creation_ignored", "data_truncations", "index_truncations", "day_change"},
 		Level:      "fault_enumeration",
 		Exhaustive: false,
 		Rule: "case = (file size limit 150 B - 4 KB, file-count limit 1-4, virtual origin incl. just before midnight; 5-60 ops: write a batch of 1-4 items for a second (same second, next, gaps, day change, some before the writer's creation second), queries FindByTimeAndResource / FindFromTimeWithMaxLines issued on ONE searcher interleaved with the writes). " +
 			"Oracle: the retained data files, parsed by the harness, always hold a suffix of the accepted items, unchanged and in order, in at most max_files files; every query returns exactly the matching retained items in timestamp order without duplicates. " +
 			"Crash part (every 4th run): for the final state EVERY byte offset of the last data file and EVERY byte offset of its index file is a truncation point applied to a copy of the directory (exhaustive for that dimension); a fresh searcher then answers a fixed query set: no error, no panic, only written items are returned unchanged and in order, and every matching item whose line lies wholly before the cut and that is reachable from an index entry wholly before the cut is returned. " +
+			"20 % of the cases, environment fault: at some point a real writer of another application leaves three rolled files in the directory under names that continue ours (.pid12, x) or whose application name ends in ours (eapp): its items never appear in our results, its files stay byte for byte, ours stay a suffix of what was accepted. " +
 			"non-trivial = at least one roll happened and a query was answered from a cached position; distinct = hash(config, ops)",
 		Assumptions: []string{"queries select by whole seconds (begin/1000 .. end/1000)", "FindFromTimeWithMaxLines returns a prefix of the matching items that is at least as long as the limit (or the whole rest)", "resource names contain no '|' or line breaks", "TZ=UTC"},
 		Real:        []string{"core/log/metric writer, reader, searcher, file naming and listing", "base.MetricItem fat-string codec", "the file system (tmpfs scratch directory)"},
@@ -83,6 +91,14 @@ func (P) Gen(rng *sim.Rng, tier string) *harness.Case {
 			ops = append(ops, harness.Op{K: "q2", N: uint64(rng.Intn(12)), M: uint64([]int{0, 1, 2, 3, 5, 100}[rng.Intn(6)])})
 		}
 	}
+	if rng.Chance(0.2) {
+		cfg.Neighbours = rng.Range(1, 7)
+		at := 0
+		if rng.Chance(0.6) {
+			at = rng.Intn(len(ops) + 1)
+		}
+		ops = append(ops[:at:at], append([]harness.Op{{K: "nb"}}, ops[at:]...)...)
+	}
 	return &harness.Case{Cfg: harness.MustJSON(cfg), Callers: [][]harness.Op{ops}}
 }
 
@@ -111,12 +127,72 @@ func listData(dir, baseName string) []string {
 	var out []string
 	for _, e := range ents {
 		n := e.Name()
-		if strings.HasPrefix(n, baseName) && !strings.HasSuffix(n, ".idx") && !strings.HasSuffix(n, ".lck") {
+		// exactly <base>.<yyyy-mm-dd>[.<number>]: anything else in the directory is somebody else's
+		if strings.HasPrefix(n, baseName) && ownRest.MatchString(n[len(baseName):]) {
 			out = append(out, n)
 		}
 	}
 	sort.Strings(out)
 	return out
+}
+
+var ownRest = regexp.MustCompile(`^\.[0-9]{4}-[0-9]{2}-[0-9]{2}(\.[0-9]+)?$`)
+
+// installNeighbours lets a real writer of another application ("nb") write three seconds into the directory,
+// rolling after each, and renames its files (data and index) to the names of Cfg.Neighbours.
+func installNeighbours(o *harness.Outcome, dir, baseName string, sec uint64, mask int) map[string]string {
+	out := map[string]string{}
+	var nb metric.MetricLogWriter
+	var err error
+	if !harness.Call(o, "C17.panic", 0, func() { nb, err = metric.NewDefaultMetricLogWriterOfApp(60, 10, "nb") }) || err != nil {
+		return out
+	}
+	for i := uint64(0); i < 3; i++ {
+		it := &base.MetricItem{Resource: "neighbour", Timestamp: (sec + i) * 1000, PassQps: 7000 + i}
+		_ = nb.Write(it.Timestamp, []*base.MetricItem{it})
+	}
+	if cl, ok := nb.(interface{ Close() error }); ok {
+		_ = cl.Close()
+	}
+	nbBase := metric.FormMetricFileName("nb", false)
+	ents, _ := os.ReadDir(dir)
+	for _, e := range ents {
+		n := e.Name()
+		if !strings.HasPrefix(n, nbBase) {
+			continue
+		}
+		data, _ := os.ReadFile(filepath.Join(dir, n))
+		rest := n[len(nbBase):]
+		for bit, name := range []string{baseName + ".pid12" + rest, "e" + baseName + rest, baseName + "x" + rest} {
+			if mask&(1<<uint(bit)) != 0 {
+				if os.WriteFile(filepath.Join(dir, name), data, 0o644) == nil {
+					out[name] = string(data)
+				}
+			}
+		}
+		_ = os.Remove(filepath.Join(dir, n))
+	}
+	return out
+}
+
+func checkNeighbours(o *harness.Outcome, step int, dir string, nbs map[string]string) bool {
+	names := make([]string, 0, len(nbs))
+	for n := range nbs {
+		names = append(names, n)
+	}
+	sort.Strings(names)
+	for _, n := range names {
+		got, err := os.ReadFile(filepath.Join(dir, n))
+		if err != nil {
+			o.Fail("C17.foreign-file-touched", step, "the file %q of another log in the directory is gone (%v): the writer removed it although it is not one of its own", n, err)
+			return false
+		}
+		if string(got) != nbs[n] {
+			o.Fail("C17.foreign-file-touched", step, "the file %q of another log in the directory was rewritten (%d bytes, was %d)", n, len(got), len(nbs[n]))
+			return false
+		}
+	}
+	return true
 }
 
 type world struct {
@@ -215,8 +291,20 @@ func (P) Exec(c *harness.Case) *harness.Outcome {
 	rolled, cachedQuery := false, false
 	queries := 0
 	day0 := createSec / 86400
+	var nbs map[string]string
 	for step, op := range c.Callers[0] {
+		if nbs != nil && !checkNeighbours(o, step, dir, nbs) {
+			return o
+		}
 		switch op.K {
+		case "nb":
+			if nbs == nil && cfg.Neighbours > 0 && cfg.Neighbours < 8 {
+				nbs = installNeighbours(o, dir, w.baseName, clk.NowMs()/1000, cfg.Neighbours)
+				if o.Failed() {
+					return o
+				}
+				o.Probe("other_logs_in_the_directory")
+			}
 		case "write":
 			clk.AdvanceMs(op.N * 1000)
 			o.SimMs += op.N * 1000
@@ -355,6 +443,9 @@ func (P) Exec(c *harness.Case) *harness.Outcome {
 				}
 			}
 		}
+	}
+	if nbs != nil && !checkNeighbours(o, len(c.Callers[0]), dir, nbs) {
+		return o
 	}
 	o.Nontrivial = rolled && cachedQuery
 	if cfg.Crash && len(w.accepted) > 0 {
